@@ -177,7 +177,8 @@ def gen(t, tier):
     n = t.weighted([(0, 1), (1, 1), (2, 3), (3, 3), (4, 3), (5, 3), (6, 4)])
     sc = {'api': api, 'pool': t.randint(1, 7), 'result_objects': bool(t.choice(2)) if api.startswith('pool.') else False,
           'policy': t.pick([['random'], ['sticky', 0.5], ['sticky', 0.2], ['sticky', 0.05]]),
-          'items': [{'yields': t.randint(0, 3), 'fail': bool(t.chance(0.2)), 'none': bool(t.chance(0.15))} for _ in range(n)]}
+          'items': [{'yields': t.randint(0, 3), 'fail': bool(t.chance(0.2)), 'none': bool(t.chance(0.15))} for _ in range(n)],
+          'busy_threads': t.pick([0, 0, 0, 40, 300, 2000])}
     if api.startswith('pool.') and t.chance(0.3):
         # the same pool object is used for a second call (after the first one returned or raised)
         m = t.randint(2, 5)
@@ -250,6 +251,12 @@ def run(sc, tape):
         return _run_callsite(sc, tape)
     from mapproxy.util import async_
     w = World(tape, policy=tuple(sc['policy']), step_cap=20000)
+    if sc.get('busy_threads'):
+        # the fan-out happens in a busy server process: many other request threads are alive (seen through
+        # threading.active_count / enumerate)
+        import threading
+        real_count = threading.active_count
+        w.extra_patches.append((threading, 'active_count', lambda: real_count() + sc['busy_threads']))
     sched = w.sched
     rounds = [sc['items']] + ([sc['second']] if sc.get('second') else [])
     threads_used = set()
